@@ -106,6 +106,10 @@ def session(arg):
     # the user's terminal: cooked (canonical, echo) but no output post-processing, so that bytes can be compared exactly
     a = termios.tcgetattr(osl)
     a[1] &= ~termios.OPOST
+    if case.get('odd_tty'):
+        # a terminal left with unusual settings by whatever ran before (stty min 0 time 5, another intr character): interact() must put
+        # back exactly what it found
+        a[6][termios.VMIN] = b'\x00'; a[6][termios.VTIME] = b'\x05'; a[6][termios.VINTR] = b'\x02'
     termios.tcsetattr(osl, termios.TCSANOW, a)
     mode0 = termios.tcgetattr(osl)
     display = bytearray()
@@ -463,6 +467,8 @@ CORPUS = [
     dict(steps=[T(b'abc', 3), ['burst_exit', 16000]], esc=chr(29)),
     dict(steps=[['burst_exit', 100000]], esc=chr(29)),
     dict(steps=[S_(b'bye'), ['quit']], esc=chr(29)),
+    dict(steps=[S_(b'bye'), ['quit']], esc=chr(29), odd_tty=True),
+    dict(steps=[S_(b'x'), T(b'ab' + ESC)], esc=chr(29), odd_tty=True, poll=True),
     # poll mode with a descriptor number beyond what select() accepts (the reason use_poll exists): output, keystrokes, child exit
     dict(steps=[S_(b'last words'), ['quit']], esc=chr(29), poll=True, highfd=True),
     dict(steps=[T(b'abc', 3), ['burst_exit', 2500]], esc=chr(29), poll=True, highfd=True),
@@ -534,6 +540,8 @@ def rand_case(rng):
         case['highfd'] = True
     if rng.random() < 0.25:
         case['short'] = rng.choice([1, 3, 7])
+    if rng.random() < 0.3:
+        case['odd_tty'] = True
     return case
 
 
@@ -545,8 +553,24 @@ def run(ctx):
     n = 36 if ctx.quick() else 400
     for _ in range(n):
         cases.append(rand_case(ctx.rng))
-    with multiprocessing.Pool(12) as pool:
-        outs = pool.map(session, [(c, ctx.tmp, k) for k, c in enumerate(cases)])
+    # every session runs in a worker process under a watchdog: a session that never ends (interact() stuck in a read while the user types, or
+    # after the child is gone) is a finding, not a reason for the check to hang
+    pool = multiprocessing.Pool(12)
+    try:
+        pending = [pool.apply_async(session, ((c, ctx.tmp, k),)) for k, c in enumerate(cases)]
+        outs, kept = [], []
+        t_end = time.time() + (240 if ctx.quick() else 1500)
+        for c, r in zip(cases, pending):
+            try:
+                outs.append(r.get(timeout=max(5.0, t_end - time.time())))
+                kept.append(c)
+            except multiprocessing.TimeoutError:
+                common.report(ctx, 'interact/session-never-ended', 'an interact() session did not end: neither the escape character, nor the child\'s exit, nor the '
+                              'harness closing both ends made interact() return (steps %s, escape %r, poll %s)' % (
+                                  [st[0] for st in c['steps']][:8], c.get('esc'), bool(c.get('poll'))), dict(case=c))
+        cases = kept
+    finally:
+        pool.terminate()
     hist = collections.Counter()
     sigs = set()
     fails = []
